@@ -93,7 +93,7 @@ var isTokenTable = [256]bool{
 }
 
 func IsTokenRune(r rune) bool {
-	return r < utf8.RuneSelf && isTokenTable[byte(r)]
+	return uint32(r) < utf8.RuneSelf && isTokenTable[byte(r)]
 }
 
 // HeaderValuesContainsToken reports whether any string in values
